@@ -87,12 +87,15 @@ class Liveness:
 
 class Run:
     def __init__(self, prog, entry, K=60, overrides=None, map_perm=False, max_instr=400000, name=None,
-                 reduce=True, verbose=False, inits=()):
+                 reduce=True, verbose=False, inits=(), spawn_limits=None, time_budget_s=None):
         self.prog = prog
         self.entry = entry
         self.K = K
         self.m = Machine(prog, max_instr=max_instr)
         self.m.map_perm = map_perm
+        self.time_budget_s = time_budget_s
+        if spawn_limits:
+            self.m.spawn_limits.update(spawn_limits)
         if overrides:
             self.m.overrides.update(overrides)
         self.inits = list(inits)
@@ -622,6 +625,8 @@ class Run:
                 print("  step %d: threads=%d alts=%d constraints=%d t=%.1fs checks=%d solver=%.1fs instrs=%d hits=%d" % (
                     k, len(m.threads), sum(len(t.alts) for t in m.threads), len(m.constraints), time.time() - self.t0,
                     m.stats["solver_checks"], m.stats["solver_s"], m.stats["instrs"], m.stats.get("model_hits", 0)), flush=True)
+            if self.time_budget_s and time.time() - self.t0 > self.time_budget_s:
+                raise BoundExceeded("time budget of %ds exhausted at step %d" % (self.time_budget_s, k))
             if not self.step(k):
                 self.quiescent_at = k
                 break
